@@ -732,6 +732,15 @@ def _eval_pkg(spec):
         pkg.modules.append(build_module(len(spec["mods"]) + 17, 1))
         if pkg.extensions:
             pkg.extensions.reverse()
+        # definitions of the package's own (generated) extensions edited in place, names unchanged
+        for e in pkg.extensions:
+            if e.name.startswith(("arithmetic", "collections", "logic", "prelude", "ptr", "tket")):
+                continue  # bundled extensions are shared objects: left alone
+            for od in list(e.operations.values())[:2]:
+                od.description = (od.description or "") + " (edited after the first encoding)"
+                od.misc = {**(od.misc or {}), "verif.edited": len(spec["mods"])}
+            for td in list(e.types.values())[:1]:
+                td.description = (td.description or "") + " (edited)"
         if len(pkg.modules) > 1:
             pkg.modules[0].root.metadata["verif.touched"] = [len(spec["mods"])]
             pkg.modules[0][pkg.modules[0].root].metadata["verif.touched"] = [len(spec["mods"])]
